@@ -330,10 +330,14 @@ func typeDefinitionEqualityExpression(t dsl.TypeDefinition, a, b string) string 
 
 func hasSimpleEquality(t dsl.Node) bool {
 	res := true
+	visited := make(map[dsl.TypeDefinition]bool)
 	dsl.Visit(t, func(self dsl.Visitor, node dsl.Node) {
 		switch t := node.(type) {
 		case *dsl.SimpleType:
-			self.Visit(t.ResolvedDefinition)
+			if !visited[t.ResolvedDefinition] {
+				visited[t.ResolvedDefinition] = true
+				self.Visit(t.ResolvedDefinition)
+			}
 		case *dsl.Array, *dsl.GenericTypeParameter:
 			res = false
 			return
@@ -912,7 +916,35 @@ func typeDefault(t dsl.Type, contextNamespace string, namedType string, st dsl.S
 	return "", defaultValueKindNone
 }
 
+type recordDefaultKey struct {
+	record           *dsl.RecordDefinition
+	contextNamespace string
+}
+
+type recordDefaultValue struct {
+	expression string
+	kind       defaultValueKind
+}
+
+// The default of a record is built from the defaults of its fields. Without remembering the
+// result, a record reached along many paths (R0 has two fields of R1, R1 two of R2, ...) is
+// recomputed once per path, which is exponential in the depth of the model.
+var recordDefaults = make(map[recordDefaultKey]recordDefaultValue)
+
 func typeDefinitionDefault(t dsl.TypeDefinition, contextNamespace string, st dsl.SymbolTable) (string, defaultValueKind) {
+	if rec, ok := t.(*dsl.RecordDefinition); ok {
+		key := recordDefaultKey{rec, contextNamespace}
+		if v, found := recordDefaults[key]; found {
+			return v.expression, v.kind
+		}
+		expression, kind := typeDefinitionDefaultUncached(t, contextNamespace, st)
+		recordDefaults[key] = recordDefaultValue{expression, kind}
+		return expression, kind
+	}
+	return typeDefinitionDefaultUncached(t, contextNamespace, st)
+}
+
+func typeDefinitionDefaultUncached(t dsl.TypeDefinition, contextNamespace string, st dsl.SymbolTable) (string, defaultValueKind) {
 	switch t := t.(type) {
 	case dsl.PrimitiveDefinition:
 		switch t {
